@@ -3,6 +3,7 @@ package rules
 import (
 	"fmt"
 	"go/ast"
+	"go/constant"
 	"go/token"
 	"go/types"
 	"strings"
@@ -68,47 +69,89 @@ func runR151(c *core.Ctx) {
 			return cf != nil && cf.Name() == "ResolveHostnameAndContextForQuery"
 		}},
 	}
-	list := fd.Body.List
-	var walk func(stmts []ast.Stmt)
-	walk = func(stmts []ast.Stmt) {
-		for i, s := range stmts {
-			if ifs, ok := s.(*ast.IfStmt); ok {
-				walk(ifs.Body.List)
-			}
-			as, ok := s.(*ast.AssignStmt)
-			if !ok || len(as.Rhs) != 1 {
+	// every assignment (plain statement or the init of an if) whose value is one of the calls; its error result must be
+	// returned on the branch where it is known to be non-nil, wherever that test is written
+	ast.Inspect(fd.Body, func(n ast.Node) bool {
+		as, ok := n.(*ast.AssignStmt)
+		if !ok || len(as.Rhs) != 1 {
+			return true
+		}
+		call, ok := core.Unparen(as.Rhs[0]).(*ast.CallExpr)
+		if !ok {
+			return true
+		}
+		for _, sr := range srcs {
+			if sr.obj != nil || !sr.match(call) {
 				continue
 			}
-			call, ok := core.Unparen(as.Rhs[0]).(*ast.CallExpr)
-			if !ok {
-				continue
-			}
-			for _, sr := range srcs {
-				if sr.obj != nil || !sr.match(call) {
-					continue
-				}
-				sr.obj = core.ObjOf(inf, as.Lhs[0])
-				sr.assign = as
-				// error returned right after
-				okErr := false
-				if i+1 < len(stmts) {
-					if ifs, ok := stmts[i+1].(*ast.IfStmt); ok {
-						for _, fct := range core.Decompose(ifs.Cond, true, nil) {
-							if e, nonNil, ok := core.NilTest(inf, fct); ok && nonNil && core.ObjOf(inf, e) == core.ObjOf(inf, as.Lhs[len(as.Lhs)-1]) {
-								for _, bs := range ifs.Body.List {
-									if r, ok := bs.(*ast.ReturnStmt); ok && len(r.Results) == 2 && core.ObjOf(inf, r.Results[1]) == core.ObjOf(inf, e) {
-										okErr = true
+			sr.obj = core.ObjOf(inf, as.Lhs[0])
+			sr.assign = as
+			errObj := core.ObjOf(inf, as.Lhs[len(as.Lhs)-1])
+			// path automaton from the call: 1 = err holds this call's verdict, 2 = known non-nil, 3 = known nil
+			okErr, lost := false, false
+			if errObj != nil {
+				core.NewFlow(c.M, inf, fd.Body).Run(&core.Automaton{
+					Init: 0,
+					Node: func(st int, n ast.Node) int {
+						if n == ast.Node(as) {
+							return 1
+						}
+						switch x := n.(type) {
+						case *ast.AssignStmt:
+							for _, l := range x.Lhs {
+								if core.ObjOf(inf, l) == errObj && (st == 1 || st == 2) {
+									if st == 2 {
+										lost = true
+									}
+									return 0
+								}
+							}
+						case *ast.ReturnStmt:
+							if st == 2 {
+								ret := false
+								for _, r := range x.Results {
+									if mentions(inf, r, errObj) {
+										ret = true
+									}
+								}
+								if ret {
+									okErr = true
+								} else {
+									lost = true
+								}
+							}
+						}
+						return st
+					},
+					Edge: func(st int, facts []core.Fact) (int, bool) {
+						for _, f := range facts {
+							if e, nonNil, ok := core.NilTest(inf, f); ok && core.ObjOf(inf, e) == errObj {
+								switch st {
+								case 1:
+									if nonNil {
+										return 2, true
+									}
+									return 3, true
+								case 2:
+									if !nonNil {
+										return st, false // known non-nil: the nil edge is infeasible
+									}
+								case 3:
+									if nonNil {
+										return st, false
 									}
 								}
 							}
 						}
-					}
-				}
-				c.Check(okErr, rel, fn, "error of "+sr.name+" is returned", as.Pos(), "", "the error of "+sr.name+" is not returned by the statement that follows the call")
+						return st, true
+					},
+				})
 			}
+			okErr = okErr && !lost
+			c.Check(okErr, rel, fn, "error of "+sr.name+" is returned", as.Pos(), "", "no return of the error of "+sr.name+" on the branch where it is non-nil before the variable is reused")
 		}
-	}
-	walk(list)
+		return true
+	})
 	for _, sr := range srcs {
 		if sr.obj == nil {
 			c.Bad(rel, fn, "calls "+sr.name, fd.Pos(), "the call is missing")
@@ -152,6 +195,9 @@ func runR151(c *core.Ctx) {
 		exact := false
 		for p := par[srcs[1].assign]; p != nil; p = par[p] {
 			if ifs, ok := p.(*ast.IfStmt); ok {
+				if ifs.Init == ast.Stmt(srcs[1].assign) {
+					continue // `if params, err = query.EncodeQueryParams(); err != nil`: its own error test
+				}
 				facts := core.Decompose(ifs.Cond, true, nil)
 				if len(facts) == 1 {
 					if e, nonNil, ok := core.NilTest(inf, facts[0]); ok && nonNil && core.ObjOf(inf, e) == queryParam {
@@ -166,10 +212,26 @@ func runR151(c *core.Ctx) {
 		appended := false
 		ast.Inspect(fd.Body, func(n ast.Node) bool {
 			as, ok := n.(*ast.AssignStmt)
-			if !ok || as.Tok != token.ADD_ASSIGN || core.ObjOf(inf, as.Lhs[0]) != srcs[0].obj {
+			if !ok || len(as.Lhs) != 1 || len(as.Rhs) != 1 || core.ObjOf(inf, as.Lhs[0]) != srcs[0].obj {
 				return true
 			}
-			if be, ok := core.Unparen(as.Rhs[0]).(*ast.BinaryExpr); ok && be.Op == token.ADD {
+			// path += "?" + params   or   path = path + "?" + params
+			rhs := core.Unparen(as.Rhs[0])
+			if as.Tok == token.ASSIGN {
+				be, ok := rhs.(*ast.BinaryExpr)
+				if !ok || be.Op != token.ADD {
+					return true
+				}
+				// left-associated: (path + "?") + params
+				if inner, ok := core.Unparen(be.X).(*ast.BinaryExpr); ok && inner.Op == token.ADD && core.ObjOf(inf, inner.X) == srcs[0].obj {
+					rhs = &ast.BinaryExpr{X: inner.Y, Op: token.ADD, Y: be.Y}
+				} else {
+					return true
+				}
+			} else if as.Tok != token.ADD_ASSIGN {
+				return true
+			}
+			if be, ok := rhs.(*ast.BinaryExpr); ok && be.Op == token.ADD {
 				if cv := core.ConstOf(inf, be.X); cv != nil && cv.ExactString() == `"?"` && core.ObjOf(inf, be.Y) == srcs[1].obj {
 					appended = true
 				}
@@ -231,59 +293,395 @@ func runR153(c *core.Ctx) {
 	inf := info(c, rel)
 	_, fd := mustDecl(c, rel, "(*Client).formatQueryUrl")
 	par := core.Parents(fd)
+	lp := newLinProver(inf, fd)
 	n := 0
 	ast.Inspect(fd.Body, func(x ast.Node) bool {
-		ix, ok := x.(*ast.IndexExpr)
-		if !ok {
+		var subj ast.Expr
+		var lo, hi, at ast.Expr
+		switch y := x.(type) {
+		case *ast.IndexExpr:
+			subj, at = y.X, y.Index
+		case *ast.SliceExpr:
+			subj, lo, hi = y.X, y.Low, y.High
+		default:
 			return true
 		}
-		if b, ok := inf.Types[ix.X].Type.Underlying().(*types.Basic); !ok || b.Info()&types.IsString == 0 {
+		if b, ok := inf.Types[subj].Type.Underlying().(*types.Basic); !ok || b.Info()&types.IsString == 0 {
 			return true
 		}
 		n++
-		ok1, ok2 := false, false
-		// climb to the || whose right operand contains ix
-		var child ast.Node = ix
-		for p := par[ix]; p != nil; p = par[p] {
-			if be, ok := p.(*ast.BinaryExpr); ok {
-				if be.Op == token.LOR && be.Y == child {
-					// left: len(s) == index
-					if l, ok := core.Unparen(be.X).(*ast.BinaryExpr); ok && l.Op == token.EQL {
-						a, b := l.X, l.Y
-						if isLenOf(inf, b, ix.X) {
-							a, b = b, a
-						}
-						if isLenOf(inf, a, ix.X) && core.SameExpr(inf, b, ix.Index) {
-							ok1 = true
-						}
-					}
+		facts := lp.factsAt(par, x.(ast.Expr))
+		var missing []string
+		ln := lp.lenOf(subj)
+		if at != nil {
+			if !lp.proveGE(lp.lin(at), linConst(0), facts) {
+				missing = append(missing, core.ExprString(at)+" >= 0")
+			}
+			if !lp.proveGT(ln, lp.lin(at), facts) {
+				missing = append(missing, core.ExprString(at)+" < len("+core.ExprString(subj)+")")
+			}
+		} else {
+			if lo != nil {
+				if !lp.proveGE(lp.lin(lo), linConst(0), facts) {
+					missing = append(missing, core.ExprString(lo)+" >= 0")
 				}
-				if be.Op == token.LAND && be.Y == child {
-					// left: idx >= 0 where idx := strings.Index(s, …)
-					for _, f := range core.Decompose(be.X, true, nil) {
-						if g, ok := core.Unparen(f.Expr).(*ast.BinaryExpr); ok && f.Val && g.Op == token.GEQ {
-							if cv := core.ConstOf(inf, g.Y); cv != nil && cv.ExactString() == "0" && mentions(inf, ix.Index, core.ObjOf(inf, g.X)) && fromStringsIndex(inf, fd, core.ObjOf(inf, g.X), ix.X) {
-								ok2 = true
-							}
-						}
-					}
+				upper := ln
+				if hi != nil {
+					upper = lp.lin(hi)
+				}
+				if !lp.proveGE(upper, lp.lin(lo), facts) {
+					missing = append(missing, core.ExprString(lo)+" <= upper bound")
 				}
 			}
-			if _, isStmt := p.(ast.Stmt); isStmt {
-				// an `if idx := …; idx >= 0 && (…)` keeps everything in one condition
-				break
-			}
-			if e, ok := p.(ast.Expr); ok {
-				child = e
+			if hi != nil {
+				if !lp.proveGE(lp.lin(hi), linConst(0), facts) {
+					missing = append(missing, core.ExprString(hi)+" >= 0")
+				}
+				if !lp.proveGE(ln, lp.lin(hi), facts) {
+					missing = append(missing, core.ExprString(hi)+" <= len("+core.ExprString(subj)+")")
+				}
 			}
 		}
-		c.Check(ok1 && ok2, rel, "(*Client).formatQueryUrl", fmt.Sprintf("string index %s is in range", core.ExprString(ix)), ix.Pos(), "guarded by idx >= 0 and the length test",
-			fmt.Sprintf("length test on the left of ||: %v; idx >= 0 (from strings.Index/LastIndex on the same string) on the left of &&: %v", ok1, ok2))
+		c.Check(len(missing) == 0, rel, "(*Client).formatQueryUrl", fmt.Sprintf("string index/slice #%d of %s is in range", n, core.ExprString(subj)), x.Pos(), "proved from the dominating tests and the postcondition of strings.Index/LastIndex",
+			core.ExprString(x.(ast.Expr))+": cannot prove "+strings.Join(missing, ", ")+" from the tests that dominate it: a context path without the root segment (or one that ends with it) panics")
 		return true
 	})
 	if n == 0 {
 		c.OK(rel, "(*Client).formatQueryUrl", "no string indexing in the URL construction", fd.Pos(), "")
 	}
+}
+
+// ---- a small linear-arithmetic prover for index safety -----------------------------------
+//
+// Terms are integer linear forms over atoms: int-typed variables and len(x) of string expressions (len of a constant is
+// its length, len(a+b) = len(a)+len(b), single-assignment locals are expanded).  Known: every len(·) >= 0; the tests that
+// dominate the use (including the operands to the left in the same && / || condition); and, for v := strings.Index /
+// LastIndex(s, p), the postcondition v >= 0  =>  v + len(p) <= len(s).
+
+type linForm struct {
+	k int64
+	c map[string]int64
+}
+
+func linConst(k int64) linForm { return linForm{k: k, c: map[string]int64{}} }
+
+func (a linForm) add(b linForm, sign int64) linForm {
+	out := linForm{k: a.k + sign*b.k, c: map[string]int64{}}
+	for x, v := range a.c {
+		out.c[x] += v
+	}
+	for x, v := range b.c {
+		out.c[x] += sign * v
+	}
+	for x, v := range out.c {
+		if v == 0 {
+			delete(out.c, x)
+		}
+	}
+	return out
+}
+
+type linFact struct {
+	// diff op 0   with op one of ">=", "!=", "=="
+	diff linForm
+	op   string
+}
+
+type linProver struct {
+	inf  *types.Info
+	fd   *ast.FuncDecl
+	defs map[types.Object][]ast.Expr
+	// index postconditions: variable atom -> (len(s) - v - len(p)) form
+	post   map[string]linForm
+	nonneg map[string]bool
+}
+
+func newLinProver(inf *types.Info, fd *ast.FuncDecl) *linProver {
+	lp := &linProver{inf: inf, fd: fd, defs: map[types.Object][]ast.Expr{}, post: map[string]linForm{}, nonneg: map[string]bool{}}
+	ast.Inspect(fd.Body, func(n ast.Node) bool {
+		if as, ok := n.(*ast.AssignStmt); ok {
+			if len(as.Lhs) == len(as.Rhs) {
+				for i, l := range as.Lhs {
+					if o := core.ObjOf(inf, l); o != nil {
+						lp.defs[o] = append(lp.defs[o], as.Rhs[i])
+					}
+				}
+			} else {
+				for _, l := range as.Lhs {
+					if o := core.ObjOf(inf, l); o != nil {
+						lp.defs[o] = append(lp.defs[o], nil)
+					}
+				}
+			}
+		}
+		return true
+	})
+	for o, ds := range lp.defs {
+		if len(ds) != 1 || ds[0] == nil {
+			continue
+		}
+		if call, ok := core.Unparen(ds[0]).(*ast.CallExpr); ok && len(call.Args) == 2 {
+			if f := core.Callee(inf, call); core.IsFunc(f, "strings", "Index") || core.IsFunc(f, "strings", "LastIndex") {
+				v := lp.atomVar(o)
+				lp.post[v] = lp.lenOf(call.Args[0]).add(linForm{c: map[string]int64{v: 1}}, -1).add(lp.lenOf(call.Args[1]), -1)
+			}
+		}
+	}
+	return lp
+}
+
+func (lp *linProver) atomVar(o types.Object) string { return fmt.Sprintf("v:%s@%d", o.Name(), o.Pos()) }
+
+func (lp *linProver) singleDef(o types.Object) ast.Expr {
+	if ds := lp.defs[o]; len(ds) == 1 {
+		return ds[0]
+	}
+	return nil
+}
+
+// lenOf: the linear form of len(e) for a string expression e.
+func (lp *linProver) lenOf(e ast.Expr) linForm {
+	e = core.Unparen(e)
+	if cv := core.ConstOf(lp.inf, e); cv != nil && cv.Kind() == constant.String {
+		return linConst(int64(len(constant.StringVal(cv))))
+	}
+	switch x := e.(type) {
+	case *ast.BinaryExpr:
+		if x.Op == token.ADD {
+			return lp.lenOf(x.X).add(lp.lenOf(x.Y), 1)
+		}
+	case *ast.Ident:
+		if o := core.ObjOf(lp.inf, x); o != nil {
+			if d := lp.singleDef(o); d != nil {
+				switch dd := core.Unparen(d).(type) {
+				case *ast.BinaryExpr:
+					if dd.Op == token.ADD {
+						return lp.lenOf(d)
+					}
+				case *ast.BasicLit:
+					return lp.lenOf(d)
+				}
+			}
+			a := "len:" + lp.atomVar(o)
+			lp.nonneg[a] = true
+			return linForm{c: map[string]int64{a: 1}}
+		}
+	}
+	a := "len:" + core.ExprString(e)
+	lp.nonneg[a] = true
+	return linForm{c: map[string]int64{a: 1}}
+}
+
+// lin: the linear form of an int expression.
+func (lp *linProver) lin(e ast.Expr) linForm {
+	e = core.Unparen(e)
+	if cv := core.ConstOf(lp.inf, e); cv != nil && cv.Kind() == constant.Int {
+		v, _ := constant.Int64Val(cv)
+		return linConst(v)
+	}
+	switch x := e.(type) {
+	case *ast.BinaryExpr:
+		switch x.Op {
+		case token.ADD:
+			return lp.lin(x.X).add(lp.lin(x.Y), 1)
+		case token.SUB:
+			return lp.lin(x.X).add(lp.lin(x.Y), -1)
+		}
+	case *ast.CallExpr:
+		if id, ok := core.Unparen(x.Fun).(*ast.Ident); ok && id.Name == "len" && len(x.Args) == 1 {
+			return lp.lenOf(x.Args[0])
+		}
+	case *ast.Ident:
+		if o := core.ObjOf(lp.inf, x); o != nil {
+			if d := lp.singleDef(o); d != nil {
+				if _, isCall := core.Unparen(d).(*ast.CallExpr); !isCall {
+					return lp.lin(d)
+				}
+			}
+			return linForm{c: map[string]int64{lp.atomVar(o): 1}}
+		}
+	}
+	return linForm{c: map[string]int64{"e:" + core.ExprString(e): 1}}
+}
+
+// factsAt: linear facts known when e is evaluated.
+func (lp *linProver) factsAt(par map[ast.Node]ast.Node, e ast.Expr) []linFact {
+	var raw []core.Fact
+	// operands to the left inside the same condition
+	var cur ast.Node = e
+	for {
+		p := par[cur]
+		be, ok := p.(*ast.BinaryExpr)
+		if pe, isParen := p.(*ast.ParenExpr); isParen {
+			cur = pe
+			continue
+		}
+		if !ok {
+			if _, isExpr := p.(ast.Expr); isExpr {
+				cur = p
+				continue
+			}
+			break
+		}
+		if be.Y == cur {
+			switch be.Op {
+			case token.LAND:
+				raw = core.Decompose(be.X, true, raw)
+			case token.LOR:
+				raw = core.Decompose(be.X, false, raw)
+			}
+		}
+		cur = be
+	}
+	// dominating tests: collect every fact offered by the guard search
+	stmt := core.EnclosingStmt(par, e)
+	if ifs, ok := stmt.(*ast.IfStmt); ok && ifs.Cond != nil && ifs.Cond.Pos() <= e.Pos() && e.End() <= ifs.Cond.End() {
+		// e sits in the condition of this if: the guards are those of the if statement itself
+		stmt = ifs
+	}
+	core.GuardedByFact(lp.inf, par, stmt, func(f core.Fact) bool {
+		raw = append(raw, f)
+		return false
+	}, nil)
+	var out []linFact
+	for _, f := range raw {
+		be, ok := core.Unparen(f.Expr).(*ast.BinaryExpr)
+		if !ok || f.Tag != nil {
+			continue
+		}
+		if lb, ok := lp.inf.Types[be.X]; !ok || lb.Type == nil {
+			continue
+		} else if b, ok := lb.Type.Underlying().(*types.Basic); !ok || b.Info()&types.IsInteger == 0 {
+			continue
+		}
+		d := lp.lin(be.X).add(lp.lin(be.Y), -1) // X - Y
+		op := be.Op
+		if !f.Val {
+			switch op {
+			case token.EQL:
+				op = token.NEQ
+			case token.NEQ:
+				op = token.EQL
+			case token.LSS:
+				op = token.GEQ
+			case token.LEQ:
+				op = token.GTR
+			case token.GTR:
+				op = token.LEQ
+			case token.GEQ:
+				op = token.LSS
+			}
+		}
+		switch op {
+		case token.GEQ:
+			out = append(out, linFact{d, ">="})
+		case token.GTR:
+			out = append(out, linFact{d.add(linConst(1), -1), ">="})
+		case token.LEQ:
+			out = append(out, linFact{linConst(0).add(d, -1), ">="})
+		case token.LSS:
+			out = append(out, linFact{linConst(-1).add(d, -1), ">="})
+		case token.NEQ:
+			out = append(out, linFact{d, "!="})
+		case token.EQL:
+			out = append(out, linFact{d, "=="})
+		}
+	}
+	return out
+}
+
+// proveGE: a - b >= 0 ?
+func (lp *linProver) proveGE(a, b linForm, facts []linFact) bool {
+	return lp.nonNegative(a.add(b, -1), facts, false)
+}
+
+// proveGT: a - b >= 1 ?
+func (lp *linProver) proveGT(a, b linForm, facts []linFact) bool {
+	return lp.nonNegative(a.add(b, -1), facts, true)
+}
+
+// nonNegative tries to show d >= 0 (or d >= 1 when strict) as a non-negative combination of: the constant, len atoms,
+// at most a few known-non-negative forms (facts d' >= 0, and postconditions whose variable is known >= 0); for the strict
+// case a fact d != 0 upgrades d >= 0 to d >= 1.
+func (lp *linProver) nonNegative(d linForm, facts []linFact, strict bool) bool {
+	var known []linForm
+	for _, f := range facts {
+		if f.op == ">=" {
+			known = append(known, f.diff)
+		}
+		if f.op == "==" {
+			known = append(known, f.diff, linConst(0).add(f.diff, -1))
+		}
+	}
+	// postconditions of index variables known to be >= 0
+	for v, p := range lp.post {
+		for _, f := range facts {
+			if f.op == ">=" && len(f.diff.c) == 1 && f.diff.c[v] == 1 && f.diff.k <= 0 {
+				known = append(known, p)
+				break
+			}
+		}
+	}
+	holds := func(r linForm, min int64) bool {
+		// r >= min when every remaining coefficient is >= 0 on a non-negative atom and the constant is >= min
+		for a, v := range r.c {
+			if !strings.HasPrefix(a, "len:") || v < 0 {
+				return false
+			}
+		}
+		return r.k >= min
+	}
+	try := func(min int64) bool {
+		if holds(d, min) {
+			return true
+		}
+		// subtract up to three known forms (each once)
+		for i := 0; i < len(known); i++ {
+			r1 := d.add(known[i], -1)
+			if holds(r1, min) {
+				return true
+			}
+			for j := 0; j < len(known); j++ {
+				if j == i {
+					continue
+				}
+				r2 := r1.add(known[j], -1)
+				if holds(r2, min) {
+					return true
+				}
+				for k := 0; k < len(known); k++ {
+					if k == i || k == j {
+						continue
+					}
+					if holds(r2.add(known[k], -1), min) {
+						return true
+					}
+				}
+			}
+		}
+		return false
+	}
+	if !strict {
+		return try(0)
+	}
+	if try(1) {
+		return true
+	}
+	if !try(0) {
+		return false
+	}
+	// d >= 0 and a fact says d != 0 (in either orientation)
+	for _, f := range facts {
+		if f.op != "!=" {
+			continue
+		}
+		same := f.diff.add(d, -1)
+		opp := f.diff.add(d, 1)
+		if len(same.c) == 0 && same.k == 0 || len(opp.c) == 0 && opp.k == 0 {
+			return true
+		}
+	}
+	return false
 }
 
 func isLenOf(inf *types.Info, e ast.Expr, s ast.Expr) bool {
